@@ -11,8 +11,10 @@ def cw(c):
 class SChars:
     sx_is_str = True
 
-    def __init__(self, chars):
+    def __init__(self, chars, wide=None):
         self.c = list(chars)
+        # characters flagged `wide` stand for non-Latin characters: two bytes in UTF-8, not encodable in ISO-8859-x
+        self.w = list(wide) if wide is not None else [False] * len(self.c)
 
     @staticmethod
     def fresh(name, n):
@@ -55,17 +57,20 @@ class SChars:
                 if isinstance(v, (SInt, SNum)):
                     return concretize(v if isinstance(v, SNum) else v.to_snum())
                 return v
-            return SChars(self.c[slice(cc(k.start), cc(k.stop), cc(k.step))])
-        return SChars([self.c[k]])      # IndexError as for str
+            sl = slice(cc(k.start), cc(k.stop), cc(k.step))
+            return SChars(self.c[sl], self.w[sl])
+        return SChars([self.c[k]], [self.w[k]])      # IndexError as for str
 
     def __add__(self, o):
-        return SChars(self.c + SChars.of(o).c)
+        o = SChars.of(o)
+        return SChars(self.c + o.c, self.w + o.w)
 
     def __radd__(self, o):
-        return SChars(SChars.of(o).c + self.c)
+        o = SChars.of(o)
+        return SChars(o.c + self.c, o.w + self.w)
 
     def __mul__(self, k):
-        return SChars(self.c * k)
+        return SChars(self.c * k, self.w * k)
     __rmul__ = __mul__
 
     def _map(self, lo, hi, delta):
@@ -124,8 +129,68 @@ class SChars:
     def endswith(self, p):
         return self[len(self.c) - len(p):] == p if len(p) <= len(self.c) else False
 
-    def strip(self):
-        raise Unsupported('strip of symbolic text')
+    WS = (9, 10, 11, 12, 13, 28, 29, 30, 31, 32)
+
+    def _is_ws(self, c):
+        if isc(c):
+            return c in self.WS
+        r = False
+        for w in self.WS:
+            r = bor_b(r, c == w)
+        return r
+
+    def rstrip(self, chars=None):
+        if chars is not None:
+            raise Unsupported('strip(chars) of symbolic text')
+        c = list(self.c)
+        w = list(self.w)
+        while c and bool(self._is_ws(c[-1])):       # forks on symbolic characters
+            c.pop()
+            w.pop()
+        return SChars(c, w)
+
+    def lstrip(self, chars=None):
+        if chars is not None:
+            raise Unsupported('strip(chars) of symbolic text')
+        c = list(self.c)
+        w = list(self.w)
+        while c and bool(self._is_ws(c[0])):
+            c.pop(0)
+            w.pop(0)
+        return SChars(c, w)
+
+    def strip(self, chars=None):
+        return self.lstrip(chars).rstrip(chars)
+
+    def translate(self, table):
+        """str.translate with a dict table: forks per symbolic character on the table keys"""
+        out = []
+        for c in self.c:
+            if isc(c):
+                m = table.get(c, chr(c))
+                out += [ord(x) for x in (m if m is not None else '')] if isinstance(m, str) else [m]
+                continue
+            hit = None
+            for k, v in table.items():
+                if bool(c == k):
+                    hit = (k, v)
+                    break
+            if hit is None:
+                out.append(c)
+            else:
+                v = hit[1]
+                if v is None:
+                    continue
+                out += [ord(x) for x in v] if isinstance(v, str) else [v]
+        return SChars(out)
+
+    def replace(self, old, new, *a):
+        if a or len(old) != 1:
+            raise Unsupported('replace variant')
+        return self.translate({ord(old): new})
+
+    def splitlines(self):
+        raise Unsupported('splitlines of symbolic text')
 
     def isdigit(self):
         if not self.c:
@@ -171,14 +236,28 @@ class SChars:
         return val
 
     def encode(self, encoding='utf-8', errors='strict'):
+        import codecs
         from .values import SBytes
-        return SBytes(self.c)       # ASCII assumed
+        name = codecs.lookup(encoding).name
+        if not any(self.w):
+            return SBytes(self.c)       # ASCII assumed
+        if name != 'utf-8':
+            raise UnicodeEncodeError(name, '', 0, 1, 'character outside the code page (wide character of the harness)')
+        out = []
+        for k, (c, wide) in enumerate(zip(self.c, self.w)):
+            out.append(c)
+            if wide:
+                out.append(SInt.fresh_word(f'cont{id(self) % 9973}_{k}_', 8))
+        return SBytes(out)
 
     def __str__(self):
         return '<symbolic text>' if not self.concrete() else self.text()
 
     def __format__(self, spec):
-        return str(self)
+        if self.concrete():
+            return format(self.text(), spec)
+        from . import shadow
+        return shadow.placeholder(self, spec or None)     # symbolic text inside a formatted string
 
     def __repr__(self):
         return repr(str(self))
